@@ -53,6 +53,8 @@ func (t *fnTrans) streamBytesRange(stream, pos string, n int) {
 
 // binary.Read(r, order, data)
 func (t *fnTrans) mBinaryRead(in ssa.Instruction, cc *ssa.CallCommon, res ssa.Value) bool {
+	// waits for the peer's bytes: a silent peer must not be able to pin a lock
+	t.blockCheck(in.Pos(), "read:encoding/binary.Read")
 	r := t.val(cc.Args[0])
 	errv := t.freshResults(res, nameOf(res, "err"))[0]
 	t.libErrorFact(errv)
@@ -133,6 +135,7 @@ func (t *fnTrans) mBinaryWrite(in ssa.Instruction, cc *ssa.CallCommon, res ssa.V
 
 // io.ReadFull(r, buf)
 func (t *fnTrans) mReadFull(in ssa.Instruction, cc *ssa.CallCommon, res ssa.Value) bool {
+	t.blockCheck(in.Pos(), "read:io.ReadFull")
 	r := t.val(cc.Args[0])
 	buf := t.val(cc.Args[1])
 	rs := t.freshResults(res, nameOf(res, "rf"))
@@ -172,6 +175,7 @@ func (t *fnTrans) readerRead(in ssa.Instruction, cc *ssa.CallCommon, res ssa.Val
 	if !ok || t.sortOf(sl.Elem()) != "Int" {
 		return false
 	}
+	t.blockCheck(in.Pos(), "read:"+t.describe(cc.Value)+".Read")
 	r := t.val(cc.Value)
 	buf := t.val(cc.Args[0])
 	rs := t.freshResults(res, nameOf(res, "rd"))
